@@ -15,6 +15,14 @@ CLAIMED = {
         technique="MIR path-sensitive control/value-flow: reply() failure-branch exits, sub-message id/reply_on census, Result-use discipline, tmp-record typestate over the execute->reply chain graph",
         note="Decided: R08.1 no Ok exit on the SubMsgResult::Err branch of reply(); R08.2 every constructed (id, reply_on) has its reply arms, other contracts use ReplyOn::Never and have no reply(); R08.3 no dropped/defaulted Result in engine code; R08.4 tmp-swap/sent-funds/tmp-liquidator stored-minus-removed is empty at the end of every chain. Not decided: that an Err/abort reverts other contracts' storage (platform semantics, trusted).",
         design="4/C08"),
+    "C09": dict(
+        technique="MIR path-sensitive guard analysis: role fact about info.sender on every success path of each privileged execute arm (DNF over callee success paths), variant classification, role-slot writer census",
+        note="Decided: R09.1 every success path of the 23 privileged arms establishes the tabled role (Admin item check / Config field equality / tabled disjunction) about info.sender; R09.2 all 29 ExecuteMsg variants classified, unclassified fails closed; R09.3 Admin items and Config are written only by instantiate and the role-transfer arm. Not decided: cw-controllers internals (trusted).",
+        design="4/C09"),
+    "C16": dict(
+        technique="MIR path-sensitive guard analysis and stored-value flow: restriction guard shape on Open/Close, marker/stamp writes in the liquidation and trade replies, marker preservation by every vAMM-map writer",
+        note="Decided: R16.1 guard on every success path of OpenPosition/ClosePosition for (msg.vamm, info.sender), marker consulted nowhere else; R16.2 rejection is the conjunction of marker==height and stamp==height; R16.3 both liquidation replies set the marker of tmp_swap.vamm to env.block.height; R16.4 every position store in a reply stamps env.block.height; R16.5 other vAMM-map writers preserve the marker. Not decided: nothing numeric; a fully liquidated (removed) position carries no stamp by design of the storage layout.",
+        design="4/C16"),
 }
 
 NOT_BUILT = "rules designed in DESIGN.md section 4 but not built yet"
